@@ -498,6 +498,8 @@ def main(pid, tier, repo=None):
         rule_partial_polarity(ctx)
         rule_drop(ctx)
         rule_deferred_first(ctx)
+    from . import fixguards
+    fixguards.run(ctx, pid)
     ctx.not_decided("that a partial section decodes to a correct partial image; allow_partial value computations; equality of the final result")
     return ctx.finish(
         "Classification half of the property, for every prefix at once: (1) the error-type graph is built from the ADT definitions and "
